@@ -411,7 +411,12 @@ impl State {
             1 => render_simple(&items), // <- AKA elvish
             7 => render_zsh(&items, &shell, full_lit),
             8 => render_bash(&items, &shell, full_lit),
-            9 => render_fish(&items, &shell, full_lit, self.path[0].as_str()),
+            9 => render_fish(
+                &items,
+                &shell,
+                full_lit,
+                self.path.first().map_or("", String::as_str),
+            ),
             unk => {
                 #[cfg(debug_assertions)]
                 {
